@@ -849,6 +849,22 @@ emitCollectIntermedSymes(Stab stab, Foam foam)
  ****************************************************************************/
 
 /*
+ * Close an output stream.  Nothing that was written to it has been checked
+ * (stdio keeps the error flag), so this is where a full device or a failed
+ * flush/close is noticed: it is a fatal error, and the exit handler removes
+ * the file that is in use.
+ */
+local void
+emitFileClose(FILE *fout, FileName fn)
+{
+	Bool	failed = ferror(fout) != 0;
+
+	if (fclose(fout) != 0) failed = true;
+	if (failed)
+		comsgFatal(NULL, ALDOR_F_CantWriteFile, fnameUnparseStatic(fn));
+}
+
+/*
  * Emit the .ai file of included source.
  */
 void
@@ -864,7 +880,7 @@ emitTheIncluded(EmitInfo finfo, SrcLineList sll)
 	verifOutOpened(fout, "ai");
 #endif
 	inclWrite(fout, sll);
-	fclose(fout);
+	emitFileClose(fout, fn);
 	emitInfoInUse(finfo, FTYPENO_INCLUDED) = false;
 	emitSetDone(FTYPENO_INCLUDED);
 }
@@ -885,7 +901,7 @@ emitTheAbSyn(EmitInfo finfo, AbSyn absyn)
 	verifOutOpened(fout, "ap");
 #endif
 	abWrSExpr(fout, absyn, emitSxIoMode);
-	fclose(fout);
+	emitFileClose(fout, fn);
 	emitInfoInUse(finfo, FTYPENO_ABSYN) = false;
 	emitSetDone(FTYPENO_ABSYN);
 }
@@ -906,7 +922,7 @@ emitTheOldAbSyn(EmitInfo finfo, AbSyn absyn)
 	verifOutOpened(fout, "ax");
 #endif
 	abWrSExpr(fout, absyn, emitSxIoMode);
-	fclose(fout);
+	emitFileClose(fout, fn);
 	emitInfoInUse(finfo, FTYPENO_OLDABSYN) = false;
 	emitSetDone(FTYPENO_OLDABSYN);
 }
@@ -1015,7 +1031,7 @@ emitTheSymbolExpr(EmitInfo finfo, SymeList symes, AbSyn macs)
 	listFree(AbSyn)(tu->typesOther);
 	stoFree(tu);
 #endif
-	fclose(fout);
+	emitFileClose(fout, fn);
 	emitInfoInUse(finfo, FTYPENO_SYMEEXPR) = false;
 	emitSetDone(FTYPENO_SYMEEXPR);
 }
@@ -1037,7 +1053,7 @@ emitTheAnnotatedAbSyn(EmitInfo finfo, SExpr whole)
 #endif
 	sxiWrite(fout, whole, SXRW_Default);
 
-	fclose(fout);
+	emitFileClose(fout, fn);
 	emitInfoInUse(finfo, FTYPENO_ANNABS) = false;
 	emitSetDone(FTYPENO_ANNABS);
 }
@@ -1059,7 +1075,7 @@ emitTheFoamExpr(EmitInfo finfo, Foam foam)
 	verifOutOpened(fout, "fm");
 #endif
 	foamWrSExpr(fout, foam, emitSxIoMode);
-	fclose(fout);
+	emitFileClose(fout, fn);
 	emitInfoInUse(finfo, FTYPENO_FOAMEXPR) = false;
 	emitSetDone(FTYPENO_FOAMEXPR);
 }
@@ -1101,7 +1117,7 @@ emitTheLisp(EmitInfo finfo, SExpr lispCode)
 		fprintf(fout, "\n");
 		sxiWrite(fout, sxCar(lispCode), glWriteMode | emitSxIoMode);
 	}
-	fclose(fout);
+	emitFileClose(fout, fn);
 	emitInfoInUse(finfo, FTYPENO_LISP) = false;
 	emitSetDone(FTYPENO_LISP);
 }
@@ -1118,7 +1134,7 @@ emitTheC(EmitInfo finfo, CCodeList cco)
 {
 	FILE		*fout=NULL, *hout = NULL;
 	String		fnstring;
-	FileName	srcfn, fn, hfn=NULL;
+	FileName	srcfn, fn, hfn=NULL, outfn=NULL;
 	CCodeMode	ccmode;
 	int		i, l = listLength(CCode)(cco);
 	Bool		stdc;
@@ -1160,8 +1176,10 @@ emitTheC(EmitInfo finfo, CCodeList cco)
 		if ((i || !hout) && i < l) {
 			if (ccoArgc(ccoArgv(car(cco))[0])) {
 				/* Need to check for name conflicts here. */
-				if (i == 1 || !hout)
+				if (i == 1 || !hout) {
+					outfn = fn;
 					fout  = fileWrOpen(fn);
+				}
 				else {
 					fnold = emitCName;
 					if (!fnold) fnold = fnameName(fn);
@@ -1180,6 +1198,7 @@ emitTheC(EmitInfo finfo, CCodeList cco)
 							 fnameType(fn));
 					/* Add to list of filenames */
 					finfo->flist = listCons(FileName)(fname, finfo->flist);
+					outfn = fname;
 					fout  = fileWrOpen(fname);
 				}
 #ifdef ALDOR_VERIF
@@ -1199,7 +1218,7 @@ emitTheC(EmitInfo finfo, CCodeList cco)
 					fprintf(fout, "\n#include \"%s\"",
 						fnameUnparseStatic(hfn));
 				ccoPrint(fout, car(cco), ccmode);
-				fclose(fout);
+				emitFileClose(fout, outfn);
 			}
 		}
 		else
@@ -1209,7 +1228,7 @@ emitTheC(EmitInfo finfo, CCodeList cco)
 	emitInfoInUse(finfo, FTYPENO_C) = false;
 	emitSetDone(FTYPENO_LISP);
 	if (hout) {
-		fclose(hout);
+		emitFileClose(hout, hfn);
 		emitInfoInUse(finfo, FTYPENO_H) = false;
 		emitSetDone(FTYPENO_H);
 	}
@@ -1304,7 +1323,7 @@ emitOneJavaFile(EmitInfo finfo, JavaCode javaFile)
 	jcoWrite(ctxt, javaFile);
 	jcoPContextFree(ctxt);
 	ostreamClose(ostream);
-	fclose(fout);
+	emitFileClose(fout, fn);
 }
 
 local FileName
